@@ -8,7 +8,7 @@ import numpy as np
 
 from . import determinism
 from .cases import OPS, build_raster, is_lazy, materialise
-from .graphsim import InjectedFault, SimScheduler, StepCap, under
+from .graphsim import InjectedFault, SimScheduler, StepCap, embedded_arrays, under
 from .util import derive_seed
 
 determinism.install()
@@ -28,6 +28,8 @@ def build_with_bases(case, backend):
             ch = spec.get("chunks") or tuple((s,) for s in data.shape)
             ch = tuple(tuple(int(c) for c in ax) for ax in ch)
             arr = da.from_array(data, chunks=ch)
+            for kname, emb in embedded_arrays(arr):
+                bases.append(("raster%d:%s" % (n, kname), emb))
         else:
             arr = data
         coords = {k: (k, np.array(v, copy=True)) for k, v in spec.get("coords", {}).items()}
